@@ -137,6 +137,13 @@ theorem not_inSubGroup_small (i : Fin 8) (hi : i ≠ 0) : inSubGroup K (coords (
       exact hi (small_injective this))
   rwa [zero_add] at h
 
+/-- the same on the explicit coordinate table `smallN` of the seven non-zero small-order points -/
+theorem not_inSubGroup_smallN (i : Fin 8) (hi : i ≠ 0) :
+    inCurve K (((smallN i).1 : ℤ), ((smallN i).2 : ℤ)) = true ∧
+      inSubGroup K (((smallN i).1 : ℤ), ((smallN i).2 : ℤ)) = false := by
+  rw [← small_coords]
+  exact ⟨inCurve_coords _, not_inSubGroup_small i hi⟩
+
 /-- **a pair that is not on the curve is never in the subgroup** -/
 theorem not_inSubGroup_off_curve (x y : ℤ) (h : inCurve K (x, y) = false) :
     inSubGroup K (x, y) = false := by
